@@ -349,6 +349,8 @@ func main() {
 		}
 	}
 	samples = append(samples, map[string]any{"ascii_reference_files": "LF/CRLF, %g/%e/%.9f, leading blanks and tabs, 1/2/7/40 facets"})
+	c.Guard("vertices compared bit-for-bit > 10000 (files were written, parsed and loaded back)", trans > 10000, fmt.Sprint(trans))
+	c.Guard("lists enumerated >= 2600", len(lists) >= 2600, fmt.Sprint(len(lists)))
 	c.Finish(vlib.Coverage{
 		States: states, Transitions: trans, Evaluations: states, Nontrivial: states - 1,
 		Rule:        "states = triangle lists (and path histories / reference files) written and read back; transitions = vertices compared bit-for-bit; non-trivial = non-empty lists",
